@@ -295,6 +295,46 @@ fn main() {
         observe_start(&sys, &mut names, &cas, "with-cas", &mut out);
         let _ = std::fs::remove_dir_all(&dir);
     }
+    // distinct tasks get distinct queue names: none may replace another
+    {
+        let dir = args.out.join("names");
+        let mut opts = SysOpts::new(&dir);
+        opts.mem_seed = args.seed.wrapping_mul(31).wrapping_add(3);
+        let sys = Sys::open(opts);
+        clear_queue(&sys);
+        let k1 = "A".repeat(40); let k2 = "B".repeat(40);
+        let mut specs: Vec<Value> = Vec::new();
+        for ca in ["a", "b"] {
+            specs.push(json!({"type": "sync_repo", "ca_handle": ca, "ca_version": 0}));
+            specs.push(json!({"type": "suspend_children_if_needed", "ca_handle": ca}));
+            for parent in ["p1", "p2"] {
+                specs.push(json!({"type": "sync_parent", "ca_handle": ca, "ca_version": 0, "parent": parent}));
+                for rcn in ["0", "1"] {
+                    specs.push(json!({"type": "resource_class_removed", "ca_handle": ca, "ca_version": 0, "parent": parent, "rcn": rcn, "revocation_requests": []}));
+                }
+            }
+            for rcn in ["0", "1"] { for k in [&k1, &k2] {
+                specs.push(json!({"type": "unexpected_key", "ca_handle": ca, "ca_version": 0, "rcn": rcn, "revocation_request": {"class_name": rcn, "key": k}}));
+            } }
+        }
+        let mut scheduled = 0u64;
+        let mut bad: Vec<String> = Vec::new();
+        for (i, sp) in specs.iter().enumerate() {
+            match serde_json::from_value::<krill::server::mq::Task>(sp.clone()) {
+                Ok(t) => { if sys.krill.tasks().schedule(t, krill::server::mq::in_hours(1 + i as i64)).is_ok() { scheduled += 1; } else { bad.push(format!("schedule failed: {sp}")); } }
+                Err(e) => bad.push(format!("task does not deserialize: {sp}: {e}")),
+            }
+        }
+        let pending = pending_tasks(&sys).len() as u64;
+        use std::io::Write;
+        let rec = json!({"index": out.w.total, "kind": "names", "distinct_tasks_scheduled": scheduled, "pending_entries": pending, "harness_notes": bad, "class": {"kind": "names"}});
+        writeln!(out.jsonl, "{rec}").unwrap();
+        *out.kinds.entry("names".into()).or_default() += 1;
+        out.distinct.insert("names".into());
+        out.w.push(format!("FNames {scheduled} {pending}"));
+        if !bad.is_empty() || scheduled < 20 { eprintln!("HARNESS ERROR (followups, not a finding about the code under test): {bad:?}"); std::process::exit(3); }
+        let _ = std::fs::remove_dir_all(&dir);
+    }
     out.w.flush();
     write_json(&args.out.join("stats.json"), &json!({
         "scenario": "followups", "seed": args.seed, "tier": args.tier, "histories": n_hist, "ops_per_history": n_ops,
